@@ -18,11 +18,12 @@ use ast_grep_core::meta_var::MetaVarEnv;
 use ast_grep_core::meta_var::MetaVariable;
 use ast_grep_core::{Doc, Language};
 
-#[cfg(feature = "verif-hooks")]
-use crate::verif_hooks::SMap as HashMap;
 #[cfg(not(feature = "verif-hooks"))]
 use std::collections::HashMap;
 use thiserror::Error;
+
+#[cfg(feature = "verif-hooks")]
+use crate::verif_hooks::SMap as HashMap;
 
 use transformation::Transformation as Trans;
 pub type Transformation = Trans<String>;
